@@ -645,7 +645,21 @@ func init() {
 		if x, ok := args[0].(float64); ok {
 			return math.Float64bits(x)
 		}
-		panic(pathAbort{"unsupported", "math.Float64bits on a symbolic value"})
+		sf, ok := args[0].(SymFloat)
+		if !ok {
+			panic(pathAbort{"unsupported", "math.Float64bits on a symbolic value"})
+		}
+		t := FpToFp(sf.T, SF64)
+		if t.Op == OpFpFromBits {
+			return mkScalar(t.Args[0], types.Uint64)
+		}
+		if fr.i.ex.Branch(FpIsNaN(t)) {
+			return math.Float64bits(math.NaN()) // the payload of a computed NaN is not modelled
+		}
+		// the bits are the unique b with to_fp(b) = x (structural equality: -0 and +0 differ)
+		b := fr.i.ex.Fresh("f64bits", "aux", SBV, 64)
+		fr.i.ex.Assume(Eq(FpFromBits(b, SF64), t))
+		return mkScalar(b, types.Uint64)
 	}
 	externals["math.Float64frombits"] = func(fr *frame, args []value) value {
 		a, _, _ := scalarTerm(args[0])
